@@ -58,3 +58,89 @@ package geojson
 //@     invariant fresh(paths) && len(paths) == len(lines) && #1 <= len(lines)
 //@   loop 2 `for i, poly := range polys`
 //@     invariant fresh(pathsList) && len(pathsList) == len(polys) && #2 <= len(polys)
+
+// ---- decoding ----
+//@ pred numArray(j interface{}) = typeof(j) == []interface{} && (forall i int :: 0 <= i && i < len(j.([]interface{})) ==> typeof(j.([]interface{})[i]) == float64)
+
+//@ pred jIs1(j interface{}, c []float64) = numArray(j) && len(j.([]interface{})) == len(c) && (forall k int :: 0 <= k && k < len(c) ==> biteq(c[k], j.([]interface{})[k].(float64)))
+//@ pred numArray2(j interface{}) = typeof(j) == []interface{} && (forall i int :: 0 <= i && i < len(j.([]interface{})) ==> numArray(j.([]interface{})[i]))
+//@ pred jIs2(j interface{}, cs [][]float64) = typeof(j) == []interface{} && len(j.([]interface{})) == len(cs) && (forall i int :: 0 <= i && i < len(cs) ==> jIs1(j.([]interface{})[i], cs[i]))
+//@ pred numArray3(j interface{}) = typeof(j) == []interface{} && (forall i int :: 0 <= i && i < len(j.([]interface{})) ==> numArray2(j.([]interface{})[i]))
+//@ pred numArray4(j interface{}) = typeof(j) == []interface{} && (forall i int :: 0 <= i && i < len(j.([]interface{})) ==> numArray3(j.([]interface{})[i]))
+
+//@ func decodeCoordinates
+//@   prop C06, C07
+//@   mode fp
+//@   panics [not_a_number_array] !numArray(jsonCoordinates)
+//@   ensures [values] fresh(result) && jIs1(jsonCoordinates, result)
+//@   modifies nothing
+//@   loop 1 `for i, element := range array`
+//@     invariant fresh(coordinates) && len(coordinates) == len(array) && #1 <= len(array) && (forall k int :: 0 <= k && k < #1 ==> typeof(array[k]) == float64 && biteq(coordinates[k], array[k].(float64)))
+
+//@ func decodeCoordinates2
+//@   prop C06, C07
+//@   mode fp
+//@   panics [not_an_array_of_number_arrays] !numArray2(jsonCoordinates)
+//@   ensures [values] fresh(result) && jIs2(jsonCoordinates, result)
+//@   modifies nothing
+//@   loop 1 `for i, element := range array`
+//@     invariant fresh(coordinates) && len(coordinates) == len(array) && #1 <= len(array) && (forall k int :: 0 <= k && k < #1 ==> jIs1(array[k], coordinates[k]))
+
+//@ func decodeCoordinates3
+//@   prop C06, C07
+//@   mode fp
+//@   panics [not_a_3_level_number_array] !numArray3(jsonCoordinates)
+//@   ensures [shape] fresh(result) && typeof(jsonCoordinates) == []interface{} && len(result) == len(jsonCoordinates.([]interface{}))
+//@   modifies nothing
+//@   loop 1 `for i, element := range array`
+//@     invariant fresh(coordinates) && len(coordinates) == len(array) && #1 <= len(array)
+
+//@ func decodeCoordinates4
+//@   prop C06, C07
+//@   mode fp
+//@   panics [not_a_4_level_number_array] !numArray4(jsonCoordinates)
+//@   ensures [shape] fresh(result) && typeof(jsonCoordinates) == []interface{} && len(result) == len(jsonCoordinates.([]interface{}))
+//@   modifies nothing
+//@   loop 1 `for i, element := range array`
+//@     invariant fresh(coordinates) && len(coordinates) == len(array) && #1 <= len(array)
+
+//@ pred pairs(cs [][]float64) = forall k int :: 0 <= k && k < len(cs) ==> len(cs[k]) == 2
+
+//@ func makeLinearRing
+//@   prop C06, C07
+//@   mode fp
+//@   panics [not_pairs] !pairs(coordinates)
+//@   ensures [points] fresh(result) && isXYs(coordinates, result)
+//@   modifies nothing
+//@   loop 1 `for i, element := range coordinates`
+//@     invariant fresh(points) && len(points) == len(coordinates) && #1 <= len(coordinates) && (forall k int :: 0 <= k && k < #1 ==> isXY(coordinates[k], points[k]))
+
+//@ func makeLinearRings
+//@   prop C06, C07
+//@   mode fp
+//@   panics [not_pairs] exists a int :: 0 <= a && a < len(coordinates) && !pairs(coordinates[a])
+//@   ensures [rings] fresh(result) && isXYss(coordinates, result)
+//@   modifies nothing
+//@   loop 1 `for i, element := range coordinates`
+//@     invariant fresh(pointss) && len(pointss) == len(coordinates) && #1 <= len(coordinates) && (forall k int :: 0 <= k && k < #1 ==> isXYs(coordinates[k], pointss[k]))
+
+//@ pred jXY(j interface{}, p geom.Point) = numArray(j) && len(j.([]interface{})) == 2 && biteq(j.([]interface{})[0].(float64), p.X) && biteq(j.([]interface{})[1].(float64), p.Y)
+//@ pred jXYs(j interface{}, ps []geom.Point) = typeof(j) == []interface{} && len(j.([]interface{})) == len(ps) && (forall k int :: 0 <= k && k < len(ps) ==> jXY(j.([]interface{})[k], ps[k]))
+
+//@ func doFromGeoJSON
+//@   prop C06, C07
+//@   mode fp
+//@   requires [nonnil] g != nil
+//@   panics [invalid_or_unsupported] true
+//@   ensures [point] g.Type == "Point" ==> typeof(result) == geom.Point && jXY(g.Coordinates, result.(geom.Point))
+//@   ensures [multipoint] g.Type == "MultiPoint" ==> typeof(result) == geom.MultiPoint && len(result.(geom.MultiPoint)) >= 1 && jXYs(g.Coordinates, result.(geom.MultiPoint))
+//@   ensures [linestring] g.Type == "LineString" ==> typeof(result) == geom.LineString && len(result.(geom.LineString)) >= 1 && jXYs(g.Coordinates, result.(geom.LineString))
+//@   ensures [multilinestring] g.Type == "MultiLineString" ==> typeof(result) == geom.MultiLineString && typeof(g.Coordinates) == []interface{} && len(result.(geom.MultiLineString)) == len(g.Coordinates.([]interface{}))
+//@   ensures [polygon] g.Type == "Polygon" ==> typeof(result) == geom.Polygon && typeof(g.Coordinates) == []interface{} && len(result.(geom.Polygon)) == len(g.Coordinates.([]interface{}))
+//@   ensures [multipolygon] g.Type == "MultiPolygon" ==> typeof(result) == geom.MultiPolygon && typeof(g.Coordinates) == []interface{} && len(result.(geom.MultiPolygon)) == len(g.Coordinates.([]interface{}))
+//@   ensures [known_types_only] g.Type == "Point" || g.Type == "MultiPoint" || g.Type == "LineString" || g.Type == "MultiLineString" || g.Type == "Polygon" || g.Type == "MultiPolygon"
+//@   modifies nothing
+//@   loop 1 `for i, coord := range coordinates`
+//@     invariant fresh(multiLineString) && len(multiLineString) == len(coordinates) && #1 <= len(coordinates)
+//@   loop 2 `for i, coord := range coordinates` #2
+//@     invariant fresh(multiPolygon) && len(multiPolygon) == len(coordinates) && #2 <= len(coordinates)
